@@ -112,6 +112,33 @@ def h_random_circuit(env, N, r, which, direction):
         env.goal('second_result_depends_on_its_own_coins_only', bool(used & second) and not (used & first))
 
 
+def h_two_samples(env, N, which):
+    """two samples drawn one after the other are independent objects: drawing the second leaves the first untouched
+    (a sampler that hands out one shared buffer makes every retained sample equal to the latest one)"""
+    M = Mods(env)
+    f = {'random_pauli': lambda: M.ut.random_pauli(N), 'random_clifford': lambda: M.ut.random_clifford(N),
+         'random_pauli_map': lambda: M.st.random_pauli_map(N), 'random_clifford_map': lambda: M.st.random_clifford_map(N),
+         'random_pauli_state': lambda: M.st.random_pauli_state(N), 'random_clifford_state': lambda: M.st.random_clifford_state(N)}[which]
+    r1 = env.run(f)
+    env.goal('first_no_exception', b_not(r1.raised))
+    if r1.value is None:
+        return
+    a = r1.value
+    parts_of = lambda v: [np.array(v.gs, dtype=object), np.array(v.ps, dtype=object)] if hasattr(v, 'gs') else [np.array(v, dtype=object)]
+    before = [x.copy() for x in parts_of(a)]
+    r2 = env.run(f)
+    env.goal('second_no_exception', b_not(r2.raised))
+    after = parts_of(a)
+    env.goal('first_sample_unchanged_by_second_draw', AND(arr_eq(x, y) for x, y in zip(before, after)))
+    if r2.value is not None:
+        b = r2.value
+        shares = any(np.shares_memory(np.asarray(x), np.asarray(y)) for x in ([a.gs, a.ps] if hasattr(a, 'gs') else [a]) for y in ([b.gs, b.ps] if hasattr(b, 'gs') else [b]))
+        env.goal('samples_do_not_share_memory', not shares)
+
+
+h_two_samples.uses_rng = True
+
+
 def z3_vars(e):
     seen, out, todo = set(), set(), [e]
     while todo:
@@ -345,6 +372,10 @@ def jobs(tier):
             J.append(dict(harness=('c16', 'h_random_table'), params=dict(N=N, which=which), timeout_s=600, cost=10))
         for which in ('random_clifford', 'random_pauli'):
             J.append(dict(harness=('c16', 'u_pigeonhole'), params=dict(N=N, which=which), timeout_s=900, cost=50))
+    for which in ('random_pauli', 'random_clifford', 'random_pauli_map', 'random_clifford_map', 'random_pauli_state', 'random_clifford_state'):
+        J.append(dict(harness=('c16', 'h_two_samples'), params=dict(N=1, which=which), timeout_s=300, cost=5))
+    for which in ('random_pauli', 'random_clifford') + (('random_clifford_map', 'random_clifford_state') if tier == 'thorough' else ()):
+        J.append(dict(harness=('c16', 'h_two_samples'), params=dict(N=2, which=which), timeout_s=600, cost=40, max_paths=8000))
     N = 2
     for r in range(N + 1):
         for which in ('onsite', 'global', 'brickwall'):
